@@ -1061,6 +1061,11 @@ def result_scope(prog: Program) -> RuleResult:
                     problems.append("the update is outside the loop over binarize()")
                 if not _update_uses_cost(fn, upd):
                     problems.append(f"`{short(upd, 60)}` does not rank outputs by their cost()")
+                # every decoded solution is offered: nothing filters them between the decoder and the result entry
+                sieves = [c for c in ast.walk(upd) if isinstance(c, ast.Call) and dotted(c.func) in ("filter", "itertools.filterfalse", "filterfalse", "itertools.islice", "islice", "itertools.takewhile", "takewhile")]
+                sieves += [c for c in ast.walk(upd) if isinstance(c, (ast.GeneratorExp, ast.ListComp, ast.SetComp)) and any(g.ifs for g in c.generators)]
+                if sieves:
+                    problems.append(f"the decoded solutions pass through `{short(sieves[0], 60)}` before they are offered: a solution the decoder produced is a solution")
             for node in walk_no_nested(fn):
                 if isinstance(node, (ast.Break,)) :
                     problems.append("a `break` leaves the enumeration early")
